@@ -540,7 +540,7 @@ MUTANTS = [
            "R2.coordinate-axes"),
     Mutant("header-program-not-truncated", HEAD, '            f"{self.program:>8.8}"\n', '            f"{self.program:>8}"\n', "R2.header-truncated"),
     Mutant("nan-all-only", CTAB, "    if np.isnan(atoms.coord).any():", "    if np.isnan(atoms.coord).all():", "R2.nan-refused"),
-    Mutant("v2000-guard-only-warns", CTAB, "            ):\n                raise ValueError(\n                    \"The given number of atoms or bonds is too large for V2000 format\"", "            ):\n                warnings.warn(\n                    \"The given number of atoms or bonds is too large for V2000 format\", "R2.v2000-behind-guard"),
+    Mutant("v2000-guard-only-warns", CTAB, "            ):\n                raise ValueError(\n                    \"The given number of atoms or bonds is too large for V2000 format\"", "            ):\n                warnings.warn(\n                    \"The given number of atoms or bonds is too large for V2000 format\"", "R2.v2000-behind-guard"),
     Mutant("bond-type-slice-narrow", CTAB, "BOND_TYPE_MAPPING.get(int(line[6:9]))", "BOND_TYPE_MAPPING.get(int(line[7:9]))", "R1.bond-columns"),
     Mutant("nan-accepted", CTAB, '    if np.isnan(atoms.coord).any():\n        raise BadStructureError("Input AtomArray has NaN coordinates")\n', "", "R2.nan-refused"),
     Mutant("unknown-version-as-v2000", CTAB, "        case unkown_version:\n            raise ValueError(f\"Unknown CTAB version '{unkown_version}'\")\n",
